@@ -145,6 +145,12 @@ impl GitHubActionsParser {
         node: tree_sitter::Node,
         content: &str,
     ) -> Option<PackageInfo> {
+        // A local action (./path) or a container image (docker://image) is not a repository:
+        // an `@` in it belongs to a directory name or to an image digest
+        if value.starts_with('.') || value.starts_with("docker://") {
+            return None;
+        }
+
         // Parse: owner/repo@version or owner/repo/subdir@version
         let at_pos = value.find('@')?;
         let (repo_part, version) = value.split_at(at_pos);
